@@ -545,6 +545,12 @@ theorem parseEscape_adv (b : Bool) (s : Array Char) (i j : Nat) (t : List Char)
       · cases h
   · cases h
 
+/-- The code point `consume_escaped_char` hands to `char::from_u32(..).unwrap()` for the hex value
+    `v` (base.rs:368): 0, the surrogates U+D800..=U+DFFF (closed range) and everything from
+    U+10FFFF up become U+FFFD first. -/
+def escapedScalar (v : Nat) : Nat :=
+  if v == 0 || (0xD800 ≤ v && v ≤ 0xDFFF) || v ≥ 0x10FFFF then 0xFFFD else v
+
 /-- `consume_escaped_char`, cursor on the backslash; the text is the one character it yields. -/
 def consumeEscapedChar (s : Array Char) (i : Nat) : ResT :=
   if h : i < s.size then
@@ -555,7 +561,7 @@ def consumeEscapedChar (s : Array Char) (i : Nat) : ResT :=
         let r := hexRun s 6 (i + 1) 0
         let j := skipOne isAsciiWs s r.1
         let v := r.2
-        .ok j [if v == 0 || (0xD800 ≤ v && v ≤ 0xDFFF) || v ≥ 0x10FFFF then Char.ofNat 0xFFFD else Char.ofNat v]
+        .ok j [Char.ofNat (escapedScalar v)]
       else .ok (i + 2) [s[i + 1]]
     else .ok (i + 1) [Char.ofNat 0xFFFD]
   else .err (.expectedChar '\\') (.cur i)
